@@ -293,6 +293,8 @@ func runC10(c *Ctx) {
 	// ------------------------------------------------------------------ (4) (5) (6)
 	s.checkReleaseSites(c)
 	s.checkHealthReset(c, "health-reset")
+	s.checkStatusStoreCallsHook(c, "status-store-calls-hook")
+	s.checkProberLifecycle(c, "prober-lifecycle")
 	s.checkStopCoreTable(c, "internal-stop-keeps-policy", "internal")
 
 	// ------------------------------------------------------------------ (7)
@@ -328,5 +330,146 @@ func runC10(c *Ctx) {
 	})
 	if n7 == 0 {
 		c.Bad(r7, "none", FirstPos(p, run), "the run loop has no daemon wait")
+	}
+}
+
+// checkProberLifecycle (C10, C05): rules added after the seeded-change round.
+func (s *Sel) checkProberLifecycle(c *Ctx, ruleID string) {
+	p := c.P
+	rule := c.Rule(ruleID, "Prober.Stop stores stopped=true on every path on which a checker exists (whatever hc.Stop() returns); the Start goroutine re-reads the stopped flag after the initial delay and does not start the checker when it is set; the check-completed hook reads the flag before delivering")
+	fStopped := p.Field("health", "Prober", "stopped")
+	fHc := p.Field("health", "Prober", "hc")
+	store := p.ExtFunc("sync/atomic", "Bool", "Store")
+	load := p.ExtFunc("sync/atomic", "Bool", "Load")
+	setTrue := Site{Name: "stopped.Store(true)", Call: func(cc *ssa.CallCommon) bool {
+		if !sameFunc(CalleeObj(cc), store) || len(cc.Args) != 2 || PathOf(cc.Args[0]).LastField() != fStopped {
+			return false
+		}
+		b, ok := ConstBool(cc.Args[1])
+		return ok && b
+	}}
+	readFlag := Site{Name: "stopped.Load()", Call: func(cc *ssa.CallCommon) bool {
+		return sameFunc(CalleeObj(cc), load) && len(cc.Args) == 1 && PathOf(cc.Args[0]).LastField() == fStopped
+	}}
+	stopFn := p.TryMethod("health", "Prober", "Stop")
+	startFn := p.TryMethod("health", "Prober", "Start")
+	if stopFn == nil || startFn == nil {
+		c.Bad(rule, "prober-methods", "", "Prober.Start/Stop not found")
+		return
+	}
+	c.Touch(stopFn, startFn)
+	// Stop: on the hc != nil edge every path sets the flag
+	okStop := false
+	for _, b := range stopFn.Blocks {
+		ifi := IfOf(b)
+		if ifi == nil {
+			continue
+		}
+		cmp, ok := CondCmp(ifi.Cond)
+		if !ok {
+			continue
+		}
+		if !(PathOf(cmp.X).LastField() == fHc && IsNilConst(cmp.Y) || PathOf(cmp.Y).LastField() == fHc && IsNilConst(cmp.X)) {
+			continue
+		}
+		nn := 0
+		if cmp.Op.String() == "==" {
+			nn = 1
+		}
+		r := MustFollow([]Pt{{b.Succs[nn], 0}}, p.Deep(setTrue), nil)
+		okStop = r.OK
+	}
+	if !okStop && p.Deep(setTrue).Always(stopFn) {
+		okStop = true
+	}
+	c.Check(okStop, rule, "stop-sets-flag", FirstPos(p, stopFn), "the stopped flag is set whenever a checker exists", "Prober.Stop can return without setting the stopped flag (e.g. when hc.Stop() reports 'not running' during the initial delay): the sleeping Start goroutine then starts probing a stopped process and later reports it Ready")
+	// Start: after the Sleep, the flag is read before hc.Start
+	var body *ssa.Function = startFn
+	for _, an := range startFn.AnonFuncs {
+		body = an
+	}
+	var sleeps, hcStarts []ssa.Instruction
+	AllInstrs(body, func(in ssa.Instruction) {
+		call, ok := in.(*ssa.Call)
+		if !ok {
+			return
+		}
+		o := CalleeObj(&call.Call)
+		if o == nil {
+			return
+		}
+		if o.Pkg() != nil && o.Pkg().Path() == "time" && o.Name() == "Sleep" {
+			sleeps = append(sleeps, in)
+		}
+		if o.Name() == "Start" && len(call.Call.Args) > 0 && PathOf(call.Call.Args[0]).LastField() == fHc {
+			hcStarts = append(hcStarts, in)
+		}
+	})
+	okStart := len(hcStarts) > 0
+	for _, sl := range sleeps {
+		vis := Reach([]Pt{after(sl)}, p.Deep(readFlag).MustAt, nil)
+		for _, hs := range hcStarts {
+			if vis[hs] {
+				okStart = false
+			}
+		}
+	}
+	// and on the flag-set edge the checker is not started
+	for _, rd := range DirectSites(body, readFlag) {
+		call, ok := rd.(*ssa.Call)
+		if !ok {
+			continue
+		}
+		te, _ := boolResultEdges(call)
+		for _, g := range te {
+			vis := Reach([]Pt{{g.If.Block().Succs[g.Succ], 0}}, nil, nil)
+			for _, hs := range hcStarts {
+				if vis[hs] {
+					okStart = false
+				}
+			}
+		}
+	}
+	c.Check(okStart, rule, "start-rechecks-flag", FirstPos(p, startFn), "the checker is started only if the prober was not stopped during the initial delay", "the Start goroutine starts the checker after the initial delay without re-reading the stopped flag")
+}
+
+// checkStatusStoreCallsHook (C09, C10): every assignment of Status runs the status-change hook.
+func (s *Sel) checkStatusStoreCallsHook(c *Ctx, ruleID string) {
+	p := c.P
+	rule := c.Rule(ruleID, "every function that stores ProcessState.Status (outside the state constructor) calls, in the same stateMtx critical section and with the stored value, the status-change hook (the function that resets Health and sets the exit code of never-run states)")
+	newState := p.Func("types", "NewProcessState")
+	// the hook: Process method with one string parameter that stores Health
+	var hooks []*ssa.Function
+	for _, f := range p.FuncsOfPkg("app") {
+		if !s.IsProcessMethod(f) || f.Parent() != nil || f.Signature.Params().Len() != 1 {
+			continue
+		}
+		if len(DirectSites(f, StoreTo("Health", s.FHealth))) > 0 && len(DirectSites(f, StoreTo("Status", s.FStatus))) == 0 {
+			if b, ok := f.Signature.Params().At(0).Type().Underlying().(*types.Basic); ok && b.Info()&types.IsString != 0 {
+				hooks = append(hooks, f)
+			}
+		}
+	}
+	if !c.Check(len(hooks) == 1, rule, "hook", "", "status-change hook found", fmt.Sprintf("%d status-change hooks found", len(hooks))) {
+		return
+	}
+	hookSite := p.Deep(CallOfFn("hook", hooks...))
+	for _, f := range p.Funcs {
+		if f == newState {
+			continue
+		}
+		for _, in := range DirectSites(f, StoreTo("Status", s.FStatus)) {
+			c.Touch(f)
+			v, _ := StoredValue(in, s.FStatus)
+			r := MustFollow([]Pt{after(in)}, hookSite, nil)
+			sameArg := false
+			for _, h := range DirectSites(f, CallOfFn("hook", hooks...)) {
+				args := ArgsOf(CallCommonOf(h))
+				if len(args) == 1 && SameValue(args[0], v) {
+					sameArg = true
+				}
+			}
+			c.Check(r.OK && sameArg, rule, "store:"+p.FuncKey(f), p.InstrPos(in), "the hook follows the store with the same value", "Status is assigned without running the status-change hook: the readiness of the previous run is not forgotten (a restarting process keeps reporting Ready) and never-run states keep exit code 0")
+		}
 	}
 }
